@@ -422,7 +422,12 @@ def has_unsafe_operation(ast: AST) -> bool:
     if collect_ast(ast, "Interval"):
         return True
 
-    if any(map(lambda x: x.operator_type == UnaryOperator.Absolute, collect_ast(ast, "UnaryOperation"))):
+    if any(
+        map(
+            lambda x: x.operator_type in (UnaryOperator.Absolute, UnaryOperator.Negation),
+            collect_ast(ast, "UnaryOperation"),
+        )
+    ):
         return True
 
     invalid = (
